@@ -265,6 +265,19 @@ func genK3(t *rapid.T, maxN int) []string {
 		j := rng.intn(i + 1)
 		perm[i], perm[j] = perm[j], perm[i]
 	}
+	if rapid.IntRange(0, 4).Draw(t, "block") == 0 {
+		// the fan-out bytes are consecutive: 11..16 of them share one high nibble
+		start := byte(rng.intn(256))
+		if rapid.Bool().Draw(t, "alignedblock") {
+			start &= 0xf0
+		}
+		for i := range perm {
+			perm[i] = start + byte(i)
+		}
+		if fan > 16 && rapid.Bool().Draw(t, "within16") {
+			fan = 11 + rng.intn(6)
+		}
+	}
 	set := map[string]struct{}{}
 	tail := func() string {
 		l := rng.intn(tailMax + 1)
